@@ -60,6 +60,15 @@ func checkDecode(c strCase) (h.Info, error) {
 			if se.Offset < 0 || se.Offset > len(s) {
 				return info, fmt.Errorf("Decode(%q): SyntaxError offset %d outside the input (len %d): %v", s, se.Offset, len(s), err)
 			}
+			// the error value belongs to this call: inspected again after other strings were decoded
+			// it still carries the same position and text
+			off, msg := se.Offset, err.Error()
+			for _, o := range afterwards {
+				_, _, _ = bech32.Decode(o)
+			}
+			if se.Offset != off || err.Error() != msg || se.Offset > len(s) {
+				return info, fmt.Errorf("Decode(%q) returned %q (position %d); after %d further Decode calls on other strings the same error value reads %q (position %d, input length %d)", s, msg, off, len(afterwards), err.Error(), se.Offset, len(s))
+			}
 		}
 		return info, nil
 	}
@@ -81,9 +90,28 @@ func checkDecode(c strCase) (h.Info, error) {
 	return info, nil
 }
 
+// afterwards: fixed invalid strings, one or two per rejection rule, short and long, decoded between
+// obtaining an error and inspecting it again.
+var afterwards = []string{
+	"a12uel5q", // checksum, short
+	"an83characterlonghumanreadablepartthatcontainsthenumber1andtheexcludedcharactersbio1tt5tgq", // checksum, long
+	"an84characterslonghumanreadablepartthatcontainsthenumber1andtheexcludedcharactersbio1569pvx", // too long
+	"pzry9x0s0muk", // no separator
+	"1pzry9x0s0muk", // empty hrp
+	"x1b4n0q5v", // invalid data character
+	"abcdefghijklmnopqrstuvwxyzabcdefghijklmnopqrstuvwxyz1b4n0q5vqqqqqq", // invalid data character, far
+	"li1dgmt3", // too short checksum
+	"A1g7sgd8", "a1G7SGD8", "abcdefghijklmnopqrstuvwxyzabcdefghijklmnopqrstuvwxyZ1qqqqqqqqqqq", // mixed case
+	"\x7f1axkwrx", "abcdefghijklmnopqrstuvwxyzabcdefghijklmnopqrstuvwxy\x801axkwrx", // hrp character
+}
+
 func genDecode(t *rapid.T) strCase {
 	var s string
-	switch h.Pick(t, "kind", 6, 6, 1) {
+	switch h.Pick(t, "kind", 6, 6, 1, 1, 1) {
+	case 3: // well-formed, but the checksum belongs to another constant (Bech32m, 0, ...)
+		s = bgen.WrongConst(t)
+	case 4: // a human-readable part that leaves the checksum register at 0 (or 1)
+		s, _, _ = bgen.ValidStateHRP(t)
 	case 0:
 		s, _, _ = bgen.Valid(t, true, h.Pick(t, "over", 9, 1) == 1)
 	case 1:
@@ -117,7 +145,79 @@ func TestDecode(t *testing.T) {
 	h.Run(t, h.Sub[strCase]{
 		Prop: "C04", Name: "decode", N: 150000,
 		Gen: genDecode, Check: checkDecode, Require: req,
-		Rule: "reference-encoded strings over arbitrary 5-bit symbols (every padding pattern), case variants, 0-3 edits with hostile replacement bytes, random bytes; non-trivial = accepted by the reference, or rejected at the checksum/padding stage, or containing a non-ASCII byte; distinct by string",
+		Rule: "reference-encoded strings over arbitrary 5-bit symbols (every padding pattern), well-formed strings whose checksum belongs to another constant (Bech32m, 0, all ones, ...), human-readable parts constructed to leave the checksum register at 0 or 1, case variants, 0-3 edits with hostile replacement bytes, random bytes; error values re-inspected after 13 further rejected calls; non-trivial = accepted by the reference, or rejected at the checksum/padding stage, or containing a non-ASCII byte; distinct by string",
+	})
+}
+
+// ---- concurrent callers sharing a human-readable part ----
+
+type concCase struct {
+	Strings []h.S `json:"strings"`
+	Iters   int   `json:"iters"`
+}
+
+func checkConcurrent(c concCase) (h.Info, error) {
+	want := make([]ref.Result, len(c.Strings))
+	acc := 0
+	for i, s := range c.Strings {
+		want[i] = ref.Decode(string(s))
+		if want[i].OK {
+			acc++
+		}
+	}
+	info := h.Info{Class: fmt.Sprintf("goroutines=%d", len(c.Strings)), NT: acc > 0}
+	if acc > 0 && acc < len(c.Strings) {
+		info.Class += "/mixed"
+	}
+	err := h.Parallel(len(c.Strings), func(g int) error {
+		s, w := string(c.Strings[g]), want[g]
+		for it := 0; it < c.Iters; it++ {
+			hrp, data, err := bech32.Decode(s)
+			if w.OK != (err == nil) || (w.OK && (hrp != w.HRP || !bytes.Equal(data, w.Data))) {
+				return fmt.Errorf("goroutine %d of %d (all decoding strings with the same human-readable part), iteration %d: Decode(%q) = (%q, %x, %v); reference ok=%v (%q, %x)", g, len(c.Strings), it, s, hrp, data, err, w.OK, w.HRP, w.Data)
+			}
+			if w.OK {
+				if re, err := bech32.Encode(hrp, data); err != nil || re != ref.AsciiLower(s) {
+					return fmt.Errorf("goroutine %d of %d (same human-readable part), iteration %d: Encode(%q, %x) = %q, %v; want %q", g, len(c.Strings), it, hrp, data, re, err, ref.AsciiLower(s))
+				}
+			}
+		}
+		return nil
+	})
+	return info, err
+}
+
+func genConcurrent(t *rapid.T) concCase {
+	c := concCase{Iters: 300}
+	hl := rapid.IntRange(1, 30).Draw(t, "hl")
+	hrp := bgen.HRP(t, hl) // a fresh prefix in (almost) every case: first use happens under contention
+	n := h.OneOf(t, "g", 2, 4, 8)
+	for i := 0; i < n; i++ {
+		nb := rapid.IntRange(0, (90-hl-7)*5/8).Draw(t, "nb")
+		s := ref.EncodeSymbols(hrp, ref.ToSymbols(rapid.SliceOfN(rapid.Byte(), nb, nb).Draw(t, "data")))
+		if h.Pick(t, "bad", 2, 1) == 1 { // one substituted data character: must stay rejected
+			b := []byte(s)
+			p := rapid.IntRange(len(hrp)+1, len(b)-1).Draw(t, "pos")
+			r := ref.Charset[rapid.IntRange(0, 31).Draw(t, "r")]
+			if r == b[p] {
+				r = ref.Charset[(rapid.IntRange(0, 31).Draw(t, "r2")+1)%32]
+			}
+			if r != b[p] {
+				b[p] = r
+			}
+			s = string(b)
+		}
+		c.Strings = append(c.Strings, h.S(s))
+	}
+	return c
+}
+
+func TestConcurrent(t *testing.T) {
+	h.Run(t, h.Sub[concCase]{
+		Prop: "C04", Name: "concurrent-callers", N: 150,
+		Gen: genConcurrent, Check: checkConcurrent,
+		Require: []string{"goroutines=2/mixed", "goroutines=8/mixed"},
+		Rule:    "schedules: 2..8 goroutines released together, each decoding (and re-encoding) its own valid or one-character-corrupted string 300 times, all strings sharing one freshly drawn human-readable part; every verdict and value = reference computed beforehand; non-trivial = at least one valid string",
 	})
 }
 
